@@ -168,6 +168,35 @@ class ConnProxy:
             raise sqlite3.OperationalError("database is locked")
         return self._real.execute(*a, **k)
 
+    def cursor(self):
+        outer = self
+
+        class _Cur:
+            def __init__(self_):
+                self_._c = outer._real.cursor()
+
+            def execute(self_, *a, **k):
+                i = outer.n
+                outer.n += 1
+                if outer.fault_at is not None and i == outer.fault_at:
+                    raise sqlite3.OperationalError("database is locked")
+                self_._c.execute(*a, **k)
+                return self_
+
+            def __getattr__(self_, name):
+                return getattr(self_._c, name)
+
+            def __iter__(self_):
+                return iter(self_._c)
+        return _Cur()
+
+    def __enter__(self):
+        self._real.__enter__()
+        return self
+
+    def __exit__(self, *a):
+        return self._real.__exit__(*a)
+
     def __getattr__(self, name):
         return getattr(self._real, name)
 
